@@ -7,6 +7,7 @@
   the writer decides depends only on their length and on the record's declared Content-Length.
 
   Segmentation (the marshaler returning a continuation record) is outside this model: see C10.
+  A record the marshaler fails on is the op `failed`.
 -/
 import Gowarc.Model.Basic
 namespace Gowarc
@@ -120,13 +121,26 @@ def write (c : WCfg) (scale : Int → Int) (s : SW) (r : WRec) : SW × WResp :=
       let files := modFile s2.files id (fun f => { f with members := f.members ++ [m] })
       ({ s2 with files := files, curSize := fileSize files id }, ⟨some id, s2.curSize, r.ulen s2.infoOf, false⟩)
 
+/-- Write(record) when the marshaler fails for the record: the fit test has been made and a file has been created if
+    none was open; what the marshaler had written of the record is removed again (the file is truncated back to the
+    tracked size), so no member is added and the tracked size stays what it was. The response carries the error. -/
+def writeFailed (c : WCfg) (scale : Int → Int) (s : SW) (r : WRec) : SW × WResp :=
+  match fitClose c scale s r.decl with
+  | none => (s, ⟨none, 0, 0, true⟩)
+  | some cl =>
+    let s1 := if cl then close s else s
+    let s2 := if s1.cur.isNone then createFile c s1 r.infoBytes else s1
+    (s2, ⟨none, 0, 0, true⟩)
+
 inductive WOp
   | write (r : WRec)
   | rotate
+  | failed (r : WRec)
 
 def step (c : WCfg) (scale : Int → Int) (s : SW) : WOp → SW × Option WResp
   | .write r => ((write c scale s r).1, some (write c scale s r).2)
   | .rotate => (close s, none)
+  | .failed r => ((writeFailed c scale s r).1, some (writeFailed c scale s r).2)
 
 def run (c : WCfg) (scale : Int → Int) (s : SW) : List WOp → SW × List (Option WResp)
   | [] => (s, [])
